@@ -16,6 +16,9 @@ pub fn oracle(c: &PuCtx, rec: &mut Rec) {
     if c.post_malformed() {
         return; // a pool lost part of its reserve list (C16 reports it); nothing here is defined on such a state
     }
+    if c.out.is_ok() {
+        reverse_clause(c, rec);
+    }
     match c.op {
         PuOp::Swap { u, offer, ask, recv, .. } if offer.len() == 1 => {
             if !c.out.is_ok() {
@@ -69,6 +72,44 @@ pub fn oracle(c: &PuCtx, rec: &mut Rec) {
             }
         }
         _ => {}
+    }
+}
+
+/// "In any state": on every constant-product pool the accepted operation changed, both directions, three ask sizes:
+/// ReverseSimulation q, then Simulation(q + 1) must return at least the requested amount.
+fn reverse_clause(c: &PuCtx, rec: &mut Rec) {
+    for p in &c.post.pools {
+        let pi = &p.pool_info;
+        if !matches!(pi.pool_type, pm::PoolType::ConstantProduct) || malformed(pi) || pi.assets.iter().any(|a| a.amount.is_zero()) {
+            continue;
+        }
+        if c.pre.pool(&pi.pool_identifier) == Some(p) {
+            continue;
+        }
+        for (oi, ai) in [(0usize, 1usize), (1, 0)] {
+            let (od, ad) = (pi.assets[oi].denom.clone(), pi.assets[ai].denom.clone());
+            let ra = pi.assets[ai].amount.u128();
+            for ask in [1u128, ra / 7 + 1, ra / 2] {
+                if ask == 0 || ask >= ra {
+                    continue;
+                }
+                let q: Result<pm::ReverseSimulationResponse, String> = c.w.query(&c.w.pool_manager, &pm::QueryMsg::ReverseSimulation { ask_asset: coin(ask, &ad), offer_asset_denom: od.clone(), pool_identifier: pi.pool_identifier.clone() });
+                rec.count("c12_state_reverse_quotes");
+                let Ok(q) = q else {
+                    rec.outcome("ReverseSimulation(state)", "refused");
+                    continue;
+                };
+                rec.outcome("ReverseSimulation(state)", "ok");
+                rec.validated += 1;
+                let off = q.offer_amount.u128().saturating_add(1);
+                let s: Result<pm::SimulationResponse, String> = c.w.query(&c.w.pool_manager, &pm::QueryMsg::Simulation { offer_asset: coin(off, &od), ask_asset_denom: ad.clone(), pool_identifier: pi.pool_identifier.clone() });
+                match s {
+                    Ok(s) if s.return_amount.u128() >= ask => {}
+                    Ok(s) => rec.viol("C12_reverse_quote_short", format!("pool {} reserves {:?}: ReverseSimulation for {ask}{ad} quotes {}{od}; offering one unit more returns only {}", pi.pool_identifier, pi.assets, q.offer_amount, s.return_amount)),
+                    Err(e) => rec.viol("C12_reverse_then_sim_failed", format!("pool {} reserves {:?}: ReverseSimulation for {ask}{ad} quotes {}{od} but Simulation of quote+1 fails: {e}", pi.pool_identifier, pi.assets, q.offer_amount)),
+                }
+            }
+        }
     }
 }
 
